@@ -7,20 +7,25 @@ Driver for C19.  Strings travel as code points joined by `.` (`_` = empty string
       -> dc=<str>   |  ERR:OTHER:ValueError        (XPath2Parser's default collation for that LC_COLLATE)
   HIST init=<str> avail=<str;str;..> norm=<req>str;..> env=<str> dec=<str> evs=<tok/tok/..>
       req = N:<str> | P:<str>;  evaluation tokens (prefix form):  E/<coll str|NONE>/<raises: -|n>/<k>  followed by
-      k inner evaluations
-      -> model=<obs>|<obs>|.. spec=<T#0#lc#env#dec> nf=<0|1 per evaluation>
-      obs = <out>#<lock>#<lc>#<env>#<dec>#<log delta: name+ / name- joined by ,>   out in ok, ERR:<code>, HANG
+      k body steps, each an evaluation or `C` (one comparison by the enclosing manager)
+      -> model=<obs>|<obs>|.. spec=<T#0#lc#env#dec> br=<number of brackets per evaluation, joined by ,>
+      obs = <out>#<lock>#<lc>#<env>#<dec>#<log delta joined by ,>   out in ok, ERR:<code>, HANG
+      log entries: name+ / name- (setlocale request accepted / rejected), @name (strcoll/strxfrm under name)
       (nothing is printed after a HANG: the thread never returns)
   THR init=<str> avail=.. norm=.. progs=<prog>|<prog>.. sched=<i.i.i..>
-      prog = jobs joined by `,`; job = <coll str>~<uses>~<raises 0|1>
-      -> the configuration after running the schedule and then round-robin to quiescence:
-         lock#lc#<per thread: done(0/1):outs(,):seenOK(0/1):nseen>|.. maxHolders=<n> badSeen=<n>
+      prog = the evaluation trees of one thread, tokens as in HIST joined by `/`
+      every job is compiled to its brackets (`compile`); the configuration after running the schedule and then
+      round-robin to quiescence:
+      -> model=lock#lc#<per thread: done(0/1);job outcomes(,);locales seen by its comparisons(,)>|..
+         maxHolders=<n> badSeen=<n> bracketsOK=<0|1: bracket results = Br.expected> spec=lock#lc
   ENV allow=<0|1|D> env=<k>v;k>v..> name=<str>
       -> model=<str|EMPTY>#<names ;> spec=<EMPTY>#
   XML defuse=<0|1|D> doc=<xmlDecl 0|1>/<leading n>/<-| ext(0|1)~decl~decl..>/<item~item..>
       decl = e:<name>:<value> | p:<name> | x:<name> | u:<name> | E | A | N | C | P
       item = t:<str> | c:<str> | r:<str>
       -> xml=<ok:str|ERR:forbidden|ERR:FODC0006> frag=<..> mustReject=<0|1>
+  XMLT defuse=<0|1|D> declok=<0|1> text=<str>            (the gate on the characters: XmlText.scanProlog)
+      -> xml=<..> frag=<..> forbidden=<0|1> parsed=<0|1>
 -/
 import EPV.Proto
 import EPV.Spec.GlobalsSpec
@@ -71,6 +76,7 @@ def parseWorld (fs : List (String × String)) : Option World := do
 /-- prefix-form evaluation trees -/
 def parseEv : Nat → List String → Option (Ev × List String)
   | 0, _ => none
+  | _ + 1, "C" :: rest => some (.cmp, rest)
   | fuel + 1, "E" :: c :: r :: k :: rest => do
     let coll ← decColl c
     let raises ← if r == "-" then some none else (nat? r).map some
@@ -100,8 +106,10 @@ def parseEvs (fuel : Nat) (toks : List String) : Option (List Ev) :=
       | none => none
   go fuel toks []
 
-def showLog (l : List (Loc × Bool)) : String :=
-  ",".intercalate (l.map fun (n, ok) => encStr n ++ (if ok then "+" else "-"))
+def showLog (l : List LogE) : String :=
+  ",".intercalate (l.map fun
+    | .set n ok => encStr n ++ (if ok then "+" else "-")
+    | .coll _ was => "@" ++ encStr was)
 
 def showObs (σ : State) (out : String) (logFrom : Nat) : String :=
   s!"{out}#{b01 σ.lock}#{encStr σ.lc}#{σ.dec}#{(σ.env.map (·.2)).headD ""}#{showLog (σ.log.drop logFrom)}"
@@ -118,56 +126,47 @@ def answerHist (fs : List (String × String)) : String :=
         match evs with
         | [] => acc.reverse
         | e :: es =>
-          match evalEv w e σ with
+          match evalEv w none e σ with
           | .ok out σ' => run es σ' (showObs σ' (showOut out) σ.log.length :: acc)
           | .err x σ' => run es σ' (showObs σ' (showErr x) σ.log.length :: acc)
           | .stuck σ' => (showObs σ' "HANG" σ.log.length :: acc).reverse
       let obs := run evs σ0 []
       let sp := EPV.GlobalsSpec.specObs σ0
       let spec := s!"T#{b01 sp.lock}#{encStr sp.lc}#{sp.dec}#{(sp.env.map (·.2)).headD ""}"
-      let nf := String.join (evs.map fun e => b01 (nestFree false e))
-      s!"model={"|".intercalate obs} spec={spec} nf={nf}"
+      let br := ",".intercalate (evs.map fun e => toString (compile w none e).length)
+      s!"model={"|".intercalate obs} spec={spec} br={br}"
   | _, _ => "bad-world"
 
 /-! threads -/
-def parseJob (s : String) : Option Thr.Job :=
-  match s.splitOn "~" with
-  | [c, u, r] => do
-    let coll ← decColl c
-    let uses ← nat? u
-    match parseColl coll with
-    | .ok m => some ⟨m, uses, r == "1"⟩
-    | .error _ => none
-  | _ => none
-
 def holders (c : Thr.Config) : Nat := (c.ts.filter fun t => t.pc.holds).length
 
 def answerThr (fs : List (String × String)) : String :=
   match parseWorld fs, decStr (field fs "init") with
   | some w, some init =>
-    let progs := ((field fs "progs").splitOn "|").mapM fun p =>
-      ((p.splitOn ",").filter (· ≠ "")).mapM parseJob
+    let jobs := ((field fs "progs").splitOn "|").mapM fun p =>
+      let toks := (p.splitOn "/").filter (· ≠ "")
+      parseEvs (toks.length + 1) toks
     let sched := ((field fs "sched").splitOn ".").filterMap nat?
-    match progs with
+    match jobs with
     | none => "bad-progs"
-    | some progs =>
+    | some jobs =>
+      let progs := jobs.map fun js => js.flatMap (compile w none)
       let c0 : Thr.Config := ⟨⟨false, init⟩, progs.map Thr.Thread.init⟩
-      -- run the given schedule step by step, recording the maximal number of lock holders
       let stepAt (c : Thr.Config) (i : Nat) : Thr.Config := Thr.runSched w [i] c
       let (c1, mx) := sched.foldl (fun (acc : Thr.Config × Nat) i =>
         let c' := stepAt acc.1 i
         (c', max acc.2 (holders c'))) (c0, 0)
-      -- then round-robin until nothing moves (bounded)
       let n := c1.ts.length
-      let total := (progs.map fun p => p.foldl (fun a j => a + j.uses + 10) 0).foldl (· + ·) 0
+      let total := (progs.map fun p => 8 * p.length + 8).foldl (· + ·) 0
       let rr := (List.range (total + 1)).flatMap fun _ => List.range n
       let (c2, mx2) := rr.foldl (fun (acc : Thr.Config × Nat) i =>
         let c' := stepAt acc.1 i
         (c', max acc.2 (holders c'))) (c1, mx)
       let bad := (c2.ts.map fun t => (t.seen.filter fun (a, b) => a != b).length).foldl (· + ·) 0
-      let thr := c2.ts.map fun t =>
-        s!"{b01 t.done};{",".intercalate (t.outs.map showOut)};{t.seen.length}"
-      s!"model={b01 c2.sh.lock}#{encStr c2.sh.lc}#{"|".intercalate thr} maxHolders={mx2} badSeen={bad} spec={b01 (EPV.GlobalsSpec.specThreads c0.sh).lock}#{encStr (EPV.GlobalsSpec.specThreads c0.sh).lc}"
+      let brOK := c2.ts.all fun t => t.outs == t.prog.map (Br.expected w)
+      let thr := (c2.ts.zip jobs).map fun (t, js) =>
+        s!"{b01 t.done};{",".intercalate (js.map fun e => showOut (outcome w none e))};{",".intercalate (t.seen.map fun p => encStr p.2)}"
+      s!"model={b01 c2.sh.lock}#{encStr c2.sh.lc}#{"|".intercalate thr} maxHolders={mx2} badSeen={bad} bracketsOK={b01 brOK} spec={b01 (EPV.GlobalsSpec.specThreads c0.sh).lock}#{encStr (EPV.GlobalsSpec.specThreads c0.sh).lc}"
   | _, _ => "bad-world"
 
 /-! gates -/
@@ -257,6 +256,13 @@ def answer (line : String) : String :=
   | "THR" => answerThr fs
   | "ENV" => answerEnv fs
   | "XML" => answerXml fs
+  | "XMLT" =>
+    match decStr (field fs "text") with
+    | none => "bad-text"
+    | some t =>
+      let df := flagOf (field fs "defuse") EPV.Gen.C19.defuseXmlDefault
+      let p := XmlText.scanProlog t.toList
+      s!"xml={showX (parseXmlText df t)} frag={showX (parseXmlFragmentText df (field fs "declok" == "1") t)} forbidden={b01 p.forbidden} parsed={b01 (XmlText.parseText t.toList).isSome}"
   | _ => "bad-cmd"
 
 def main : IO Unit := mainLoop answer
